@@ -66,23 +66,40 @@ inline std::vector<uint8_t> encodeWav(const WavSpec& w)
 struct ParsedWav { bool ok = false; std::string why; WaveFormat fmt; uint16_t cbSize = 0; uint32_t fmtSize = 0; std::vector<uint8_t> data; uint32_t riffSize = 0; };
 
 // strict parser of the canonical extracted form: RIFF size WAVE 'fmt ' 18 WAVEFORMATEX 'data' n bytes
+// A self-consistent WAV file: the RIFF size covers the file exactly, the chunks tile the RIFF body (an odd-sized chunk may be
+// followed by its pad byte), there is one 'fmt ' chunk of at least 16 bytes in front of one 'data' chunk. The name is historical:
+// the layout need not be the 46-byte one the pinned tree writes (a 16-byte fmt chunk is as self-consistent as an 18-byte one)
 inline ParsedWav parseCanonicalWav(const std::vector<uint8_t>& v)
 {
 	ParsedWav p;
-	if (v.size() < 46) { p.why = "shorter than the 46-byte canonical header"; return p; }
+	if (v.size() < 12 + 8 + 16 + 8) { p.why = "shorter than RIFF header, fmt chunk and data chunk header"; return p; }
 	if (std::string(v.begin(), v.begin() + 4) != "RIFF" || std::string(v.begin() + 8, v.begin() + 12) != "WAVE") { p.why = "RIFF/WAVE tags"; return p; }
 	p.riffSize = mc::get32(v, 4);
 	if (uint64_t(p.riffSize) + 8 != v.size()) { p.why = "RIFF size " + std::to_string(p.riffSize) + " != file size - 8 (" + std::to_string(v.size() - 8) + ")"; return p; }
-	if (std::string(v.begin() + 12, v.begin() + 16) != "fmt ") { p.why = "fmt tag"; return p; }
-	p.fmtSize = mc::get32(v, 16);
-	if (p.fmtSize != 18) { p.why = "fmt chunk size " + std::to_string(p.fmtSize); return p; }
-	p.fmt.tag = mc::get16(v, 20); p.fmt.channels = mc::get16(v, 22); p.fmt.rate = mc::get32(v, 24); p.fmt.avgBytes = mc::get32(v, 28); p.fmt.blockAlign = mc::get16(v, 32); p.fmt.bits = mc::get16(v, 34);
-	p.cbSize = mc::get16(v, 36);
-	if (p.cbSize != 0) { p.why = "cbSize not 0"; return p; }
-	if (std::string(v.begin() + 38, v.begin() + 42) != "data") { p.why = "data tag"; return p; }
-	uint32_t n = mc::get32(v, 42);
-	if (uint64_t(n) + 46 != v.size()) { p.why = "data length " + std::to_string(n) + " does not end the file (" + std::to_string(v.size()) + ")"; return p; }
-	p.data.assign(v.begin() + 46, v.end());
+	std::size_t pos = 12; bool haveFmt = false, haveData = false;
+	while (pos < v.size()) {
+		if (pos + 8 > v.size()) { p.why = "a chunk header is cut off at the end of the file"; return p; }
+		std::string tag(v.begin() + std::ptrdiff_t(pos), v.begin() + std::ptrdiff_t(pos + 4));
+		uint64_t len = mc::get32(v, pos + 4);
+		if (pos + 8 + len > v.size()) { p.why = "chunk '" + tag + "' of " + std::to_string(len) + " bytes does not fit the file"; return p; }
+		if (tag == "fmt ") {
+			if (haveFmt || haveData) { p.why = "fmt chunk out of place"; return p; }
+			if (len < 16) { p.why = "fmt chunk size " + std::to_string(len); return p; }
+			std::size_t q = pos + 8;
+			p.fmtSize = uint32_t(len);
+			p.fmt.tag = mc::get16(v, q); p.fmt.channels = mc::get16(v, q + 2); p.fmt.rate = mc::get32(v, q + 4); p.fmt.avgBytes = mc::get32(v, q + 8); p.fmt.blockAlign = mc::get16(v, q + 12); p.fmt.bits = mc::get16(v, q + 14);
+			if (len >= 18) { p.cbSize = mc::get16(v, q + 16); if (uint64_t(18) + p.cbSize > len) { p.why = "cbSize exceeds the fmt chunk"; return p; } }
+			haveFmt = true;
+		}
+		else if (tag == "data") {
+			if (!haveFmt || haveData) { p.why = "data chunk out of place"; return p; }
+			p.data.assign(v.begin() + std::ptrdiff_t(pos + 8), v.begin() + std::ptrdiff_t(pos + 8 + len));
+			haveData = true;
+		}
+		pos += std::size_t(8 + len);
+		if ((len & 1) && pos < v.size()) ++pos;   // pad byte
+	}
+	if (!haveFmt || !haveData) { p.why = "fmt or data chunk missing"; return p; }
 	p.ok = true;
 	return p;
 }
